@@ -55,13 +55,17 @@ class Ops(SeriesOps):
         if isinstance(mask, Ser) and mask.ctx[0] != f.base and not T.has_opaque(mt):
             self.log("foreign-mask", node, mask_ctx=mask.ctx, frame_ctx=f.ctx())
             mt = ("foreignmask", mt, mask.ctx)
+        elif isinstance(mask, Ser) and getattr(mask, "positional", False) and mask.ctx != f.ctx() and not T.has_opaque(mt):
+            # a numpy / positional mask is applied by POSITION: computed over another row selection or another row order it selects other rows
+            self.log("positional-mask-misaligned", node, mask_ctx=mask.ctx, frame_ctx=f.ctx())
+            mt = ("positionalmask", mt, mask.ctx)
         g = f.derive(rows=T.and_(f.rows, mt))
         self.log("filter", node, src=f.obj, dst=g.obj, base=f.base, pred=mt, how=how)
         return g
 
     def _is_mask(self, key: Any) -> bool:
         if isinstance(key, Ser):
-            return self.M._boolish(key.term) or key.term[0] in ("ite", "foreignmask")
+            return self.M._boolish(key.term) or key.term[0] in ("ite", "foreignmask", "positionalmask")
         return isinstance(key, tuple) and self.M._boolish(key)
 
     def project(self, f: Frame, names: List[str], node) -> Frame:
